@@ -48,13 +48,33 @@ def units(tier):
                 if not q or rot % 4 == 0:
                     us.append(dict(h="mutate", prog=p, at=pos + c, op="delete" if c < len(l) else "dup", std=std, ic=True, cost=1))
             pos += len(l) + 1
+    # token-level mutations (concrete): delete / duplicate a token, swap neighbours, duplicate a
+    # parenthesised group
+    from vh import layout as LAY
+    for p in base:
+        src = G.program_text(p, {})
+        f08 = G.is_f08(p)
+        lines = [l for l in src.split("\n") if len(l) > 0]
+        for li in range(1, len(lines) - 1):
+            sp = LAY.tok_spans(lines[li])
+            for j in range(len(sp)):
+                rot += 1
+                if q and rot % 2:
+                    continue
+                std = "f2008" if (f08 or rot % 2 == 0) else "f2003"
+                for op in ("tdel", "tdup", "tswap", "gdup"):
+                    if op == "tswap" and j + 1 >= len(sp):
+                        continue
+                    if op == "gdup" and lines[li][sp[j][1]:sp[j][2]] != "(":
+                        continue
+                    us.append(dict(h="tokmut", prog=p, line=li, j=j, op=op, std=std, ic=True, cost=1))
     return us
 
 
 def meta(tier):
     q = tier == "quick"
     return dict(bounds=dict(arbitrary_text_len=2 if q else 3, alphabet="tab, newline, printable ASCII (97 characters) for every symbolic position",
-                            mutation="one character position of a catalogue program replaced by / preceded by a symbolic character, or deleted/duplicated",
+                            mutation="one character position of a catalogue program replaced by / preceded by a symbolic character, or deleted/duplicated; token deleted / duplicated / swapped with its neighbour; parenthesised group duplicated",
                             positions="first, middle, last character and end of every line" if q else "every character position of every line",
                             programs=len(PG.base_programs())),
                 assumptions=["the C-level UTF-8 decoder and open() are not encoded; only the registered Python error handler is",
@@ -114,6 +134,44 @@ def mutate(ctx):
         src = src[:at] + src[at - 1:at] + src[at:]
     ctx.observe("src", src)
     run_parse(ctx, src, p["std"], p["ic"])
+
+
+def tokmut(ctx):
+    from vh import layout as LAY
+    p = ctx.p
+    C.reset()
+    lines = [l for l in G.program_text(p["prog"], {}).split("\n") if len(l) > 0]
+    l = lines[p["line"]]
+    sp = LAY.tok_spans(l)
+    j = p["j"]
+    k, a, b = sp[j]
+    op = p["op"]
+    if op == "tdel":
+        new = l[:a] + l[b:]
+    elif op == "tdup":
+        new = l[:b] + " " + l[a:b] + l[b:]
+    elif op == "tswap":
+        k2, a2, b2 = sp[j + 1]
+        new = l[:a] + l[a2:b2] + l[b:a2] + l[a:b] + l[b2:]
+    else:
+        depth = 0
+        end = None
+        for t in range(j, len(sp)):
+            w = l[sp[t][1]:sp[t][2]]
+            if w == "(":
+                depth += 1
+            elif w == ")":
+                depth -= 1
+                if depth == 0:
+                    end = sp[t][2]
+                    break
+        if end is None:
+            ctx.check(True, "no group")
+            return
+        new = l[:end] + l[a:end] + l[end:]
+    src = "\n".join(lines[:p["line"]] + [new] + lines[p["line"] + 1:]) + "\n"
+    ctx.observe("src", src)
+    run_parse(ctx, src, p["std"], True)
 
 
 def big(ctx):
